@@ -264,6 +264,20 @@ def run(cx, rep):
                 ps = ts_common.fn_params(fn)
                 # (seen through private helpers, with their parameters replaced by the arguments of the call)
                 gnodes = list(tsast.walk_inl(mod, cname, guard["consequent"])) if guard else []
+                # the comparison may be a further conjunct of the guard itself (`if (ctx.flag && undeclaredKeys(input,
+                # configKeys).length > 0) return false`, benign b94): the other operands of the `&&` chain the flag read
+                # is an operand of belong to the guarded decision as much as the statements of the consequent do
+                def conjuncts(e):
+                    e = unparen(e)
+                    if e.get("type") == "BinaryExpression" and e.get("operator") == "&&":
+                        return conjuncts(e["left"]) + conjuncts(e["right"])
+                    return [e]
+                if guard:
+                    cj = conjuncts(guard["test"])
+                    if len(cj) > 1:
+                        for e_ in cj:
+                            if not any(x is nd for x in walk(e_)):
+                                gnodes += list(tsast.walk_inl(mod, cname, e_))
                 calls_ = [x for x in gnodes if x["type"] == "CallExpression"]
                 keys_of_input = any(s(x["callee"]) == "Object.keys" and x["arguments"] and s(x["arguments"][0]["expression"]) == ps[1] for x in calls_)
                 includes_ = [method_call(x) for x in calls_ if method_call(x) and method_call(x)[1] == "includes"]
